@@ -12,6 +12,7 @@ use kvc::util::*;
 use serde_json::{json, Value as J};
 
 const DAY: u64 = 86400;
+static CLOCK: std::sync::atomic::AtomicU64 = std::sync::atomic::AtomicU64::new(T0);
 const LOCKED_MSG: &str = "Account is temporarily locked";
 const LOCKED_MSG_REAUTH: &str = "Credential is temporarily locked";
 
@@ -211,9 +212,10 @@ async fn server_attempt(w: &mut World, a: &mut Acct, path: &str, ct: u64, wrong:
                     Ok(ar) => match ar.state {
                         AuthState::Continue(_) => (ar.sessionid, "continue".to_string()),
                         AuthState::Denied(m) if m == LOCKED_MSG_REAUTH => return "refused".into(),
-                        _ => return "other".into(),
+                        AuthState::Denied(m) => return format!("other:reauth denied:{m}"),
+                        _ => return "other:reauth state".into(),
                     },
-                    Err(_) => return "other".into(),
+                    Err(e) => return format!("other:reauth {}", err_class(&e)),
                 }
             } else {
                 let i = w.auth_step(World::init_step(&a.name, false), d).await;
@@ -245,7 +247,10 @@ async fn server_attempt(w: &mut World, a: &mut Acct, path: &str, ct: u64, wrong:
                         if path == "auth" {
                             a.token = r.token.clone();
                         }
-                        w.drain_delayed(d).await;
+                        let kinds = w.drain_delayed(d).await;
+                        if kinds.iter().any(|k| k.ends_with(":err")) {
+                            eprintln!("NOTE delayed action failed at {ct}: {kinds:?}");
+                        }
                         return "ok".into();
                     }
                     "denied" => {
@@ -269,7 +274,11 @@ async fn server_history(tr: &mut Tracer, w: &mut World, rng: &mut Rng, n: u64, l
     };
     let step = 30u64;
     let name = format!("sl{n}");
-    let ct0 = std::time::Duration::from_secs(T0 + 5);
+    // histories share one server: simulated time never goes backwards across them (a server whose
+    // clock is ahead expires the session records of "earlier" logins, which breaks reauth)
+    let base = CLOCK.load(std::sync::atomic::Ordering::Relaxed);
+    let first_ct = script.and_then(|s| s["evs"].as_array().and_then(|a| a.first().and_then(|e| e["ct"].as_u64())));
+    let ct0 = std::time::Duration::from_secs(first_ct.map(|c| c - 5).unwrap_or(base + 5));
     if w.create(vec![World::person(n, &name, kind == "unix")], ct0).await.is_err() {
         return false;
     }
@@ -286,7 +295,7 @@ async fn server_history(tr: &mut Tracer, w: &mut World, rng: &mut Rng, n: u64, l
     // events: generated (seeded) or scripted (replay)
     let scripted: Option<Vec<J>> = script.map(|s| s["evs"].as_array().cloned().unwrap_or_default());
     let admin = rng.chance(1, 4);
-    let mut now = T0 + 10 + rng.below(1000);
+    let mut now = base + 10 + rng.below(1000);
     if rng.chance(1, 3) {
         now = (now / win + 1) * win - rng.range(1, 12);
     }
@@ -340,12 +349,14 @@ async fn server_history(tr: &mut Tracer, w: &mut World, rng: &mut Rng, n: u64, l
         }
         // an answer the driver does not classify (refused for a reason other than the lock) is data:
         // it is logged as "refused" with a note and judged like any refusal
-        let other = res == "other";
+        let other = res.starts_with("other");
+        let note = if other { res.clone() } else { String::new() };
         let res = if other { "refused".to_string() } else { res };
         let after = ka::server_softlock(&w.idms, a.cred).await;
         let valid = after.as_ref().map(|p| p.valid).unwrap_or(true);
-        lines.push(json!({"a": "attempt", "path": path, "ct": ct, "exp": exp, "wrong": wrong as u8, "res": res, "other": other as u8, "v": valid as u8, "st": st_json(&after)}));
+        lines.push(json!({"a": "attempt", "path": path, "ct": ct, "exp": exp, "wrong": wrong as u8, "res": res, "other": other as u8, "note": note, "v": valid as u8, "st": st_json(&after)}));
     }
+    CLOCK.store(now + 2000, std::sync::atomic::Ordering::Relaxed);
     tr.emit(&json!({"a": "reset", "pol": polname, "w": win, "proto": 1, "server": 1, "kind": kind, "evs": evs, "st": st_json(&None)}));
     for l in &lines {
         tr.emit(l);
